@@ -668,6 +668,7 @@ type frame struct {
 	callStk  []*ssa.Function
 	iters    map[*ssa.Range]string
 	pathMemo map[*ssa.BasicBlock][]string
+	extraEff map[string]bool
 }
 
 type retInfo struct {
